@@ -37,7 +37,9 @@ lazy_static! {
     };
 }
 
-thread_local! { static ME: Cell<usize> = Cell::new(usize::MAX); }
+thread_local! { static ME: Cell<usize> = Cell::new(usize::MAX); static LOC: Cell<Option<&'static std::panic::Location<'static>>> = Cell::new(None); }
+/// debugging aid: the source location of the library call behind the next visible operation (shown in the replay log only)
+pub fn at(l: &'static std::panic::Location<'static>) { LOC.with(|c| c.set(Some(l))); }
 
 pub fn me() -> usize { ME.with(|m| m.get()) }
 pub static JOINED: std::sync::atomic::AtomicUsize = std::sync::atomic::AtomicUsize::new(0);
@@ -128,7 +130,8 @@ pub fn gate<F: FnMut(&Runtime) -> bool>(what: &str, mut enabled: F) {
         if rt.cur == id && rt.verdict.is_none() { continue; }
     }
     rt.threads[id].steps += 1; rt.total_steps += 1;
-    let line = format!("{} {}", rt.threads[id].name, what);
+    let loc = LOC.with(|c| c.take());
+    let line = match loc { Some(l) => format!("{} {} @{}:{}", rt.threads[id].name, what, l.file().rsplit('/').next().unwrap_or(""), l.line()), None => format!("{} {}", rt.threads[id].name, what) };
     rt.log.push(line);
     if rt.total_steps > rt.step_limit { rt.verdict = Some("STEP-LIMIT".to_string()); G.cv.notify_all(); drop(rt); abort_thread(); }
     // proceed with the operation; the token stays with me until my next gate
@@ -212,13 +215,17 @@ pub mod sync {
         pub fn new(t: T) -> Mutex<T> { Mutex { locked: AtomicBool::new(false), poisoned: AtomicBool::new(false), data: UnsafeCell::new(t) } }
     }
     impl<T: ?Sized> Mutex<T> {
+        #[track_caller]
         pub fn lock(&self) -> LockResult<MutexGuard<'_, T>> {
+            super::at(std::panic::Location::caller());
             gate("Mutex::lock", |_| !self.locked.load(Ordering::SeqCst));
             self.locked.store(true, Ordering::SeqCst);
             let g = MutexGuard { m: self, pan: std::thread::panicking() };
             if self.poisoned.load(Ordering::SeqCst) { Err(PoisonError::new(g)) } else { Ok(g) }
         }
+        #[track_caller]
         pub fn try_lock(&self) -> TryLockResult<MutexGuard<'_, T>> {
+            super::at(std::panic::Location::caller());
             gate("Mutex::try_lock", |_| true);
             if self.locked.load(Ordering::SeqCst) { return Err(TryLockError::WouldBlock); }
             self.locked.store(true, Ordering::SeqCst);
